@@ -108,7 +108,7 @@ def run(ctx):
         ctx.leanchecker(MODULE)
     ctx.coverage["source_translation"] = tr
     (exe,) = ctx.build_harness(["hygiene"])
-    rc, out, err = ctx.run_harness(exe, ["--seed", ctx.seed, "--n", ctx.vol(800, 8000), "--rustc", ctx.vol(12, 60), "--out", ctx.scratch])
+    rc, out, err = ctx.run_harness(exe, ["--seed", ctx.seed, "--n", ctx.vol(600, 8000), "--rustc", ctx.vol(6, 60), "--out", ctx.scratch])
     if rc != 0:
         ctx.fatal("harness hygiene failed: " + err[-800:])
     stats = json.loads(out.strip().split("\n")[-1])
